@@ -44,6 +44,21 @@ def judge(case, evs, part):
         return
     mode = ('on' if allow else 'off') + ('/unexecuted' if wrapped else '/executed')
     part.count('mode', mode)
+    sv = case.get('sv', BASE)
+    if sv != BASE:
+        wit['sv'] = sv
+        mode += '/' + {WITNESS_V0: 'v0', TAPSCRIPT: 'tapscript'}[sv]
+    if not allow and sv == TAPSCRIPT:
+        # in a tapscript these byte values are OP_SUCCESSx: without the option the function must not be computed (nor the opcode be
+        # skipped like an ordinary one) - failing as a disabled opcode and ending the whole script as BIP342 prescribes are both accepted
+        idx = 2 if wrapped else 0
+        ran = len(steps) > idx and steps[idx].ret and not steps[idx].done
+        if ran:
+            part.violation('%s:not-disabled-without-option:tapscript%s' % (name, ':unexecuted' if wrapped else ''), wit)
+        else:
+            part.nontrivial.add(nt_hash(op, tuple(stack), flags, mode))
+        part.count('outcome', name + ':disabled')
+        return
     if not allow:
         # must fail as a disabled opcode at the op itself
         idx = 2 if wrapped else 0
@@ -147,6 +162,18 @@ def gen_cases(idx, nchunks, tier):
                 for c in OFFS:
                     add(op, [a, b, c])
         add(op, [b'ab', b'\x01'])
+    # the gate does not depend on the script version: segwit v0 and tapscript sessions, executed and unexecuted
+    for op in UN + BIN + TER:
+        n_operands = 1 if op in UN else 2 if op in BIN else 3
+        st = [b'\x01', b'\x02', b'\x01'][:n_operands] if op not in (OP_AND, OP_OR, OP_XOR) else [b'\x05', b'\x03']
+        if op == OP_SUBSTR:
+            st = [b'abc', b'\x01', b'\x01']
+        for svx in (WITNESS_V0, TAPSCRIPT):
+            for flags in (0, STANDARD & ~F["DISCOURAGE_OP_SUCCESS"], STANDARD):
+                for allow, wrapped in ((False, False), (False, True)) + (((True, False),) if svx == WITNESS_V0 else ()):
+                    if k % nchunks == idx:
+                        cases.append(dict(op=op, stack=list(st), flags=flags, allow=allow, wrapped=wrapped, sv=svx))
+                    k += 1
     if tier == 'thorough':
         rng = sub_rng(PROP, 'rand', idx)
         for i in range(20000):
@@ -186,7 +213,7 @@ def worker(job):
     cases = gen_cases(idx, nchunks, tier)
     wd = scratch('c17')
     try:
-        hc = [(c['id'], case_cmds(c['id'], script_of(c), c['stack'], c['flags'], BASE, allow=c['allow'])) for c in cases]
+        hc = [(c['id'], case_cmds(c['id'], script_of(c), c['stack'], c['flags'], c.get('sv', BASE), allow=c['allow'])) for c in cases]
         events, crashes, hangs = run_harness_cases(bindir, hc, wd)
         by = {c['id']: c for c in cases}
         for cr in crashes:
